@@ -363,9 +363,90 @@ def run_ops_list(case):
     return res
 
 
+def run_window(case):
+    """expectation_value(ops, sites=[s]) with n-site operators: which entry of `ops` is selected (object identity) and which
+    tensors get_theta contracts (arguments of get_B, recorded through an instance attribute; the source is not touched)"""
+    import warnings
+    import tenpy.linalg.np_conserved as npc
+    from tenpy.networks.mps import MPS
+    from tenpy.networks.site import SpinHalfSite
+    L, nops = case['L'], case['nops']
+    site = SpinHalfSite(conserve=None)
+    psi = MPS.from_product_state([site] * L, ['up', 'down'] * (L // 2) + ['up'] * (L % 2), bc=case['bc'], unit_cell_width=L)
+    calls = []
+    orig_get_B = psi.get_B
+
+    def rec_get_B(i, *a, **kw):
+        calls.append(int(i))
+        return orig_get_B(i, *a, **kw)
+    psi.get_B = rec_get_B
+    picked = []
+    orig_get_op = psi.get_op
+
+    def rec_get_op(op_list, i):
+        op, jw = orig_get_op(op_list, i)
+        picked.append([k for k, o in enumerate(op_list) if o is op])
+        return op, jw
+    psi.get_op = rec_get_op
+    res = []
+    for s0, n in case['queries']:
+        ops = []
+        for _ in range(nops):
+            op = site.Sz.copy() if n == 1 else site.Sz.replace_labels(['p', 'p*'], ['p0', 'p0*'])
+            for k in range(1, n):
+                op = npc.outer(op, site.Sz.replace_labels(['p', 'p*'], ['p%d' % k, 'p%d*' % k]))
+            ops.append(op)
+        del calls[:]
+        del picked[:]
+        try:
+            with warnings.catch_warnings():
+                warnings.simplefilter('error')
+                val = psi.expectation_value(ops, sites=[s0])
+            if len(picked) != 1 or len(picked[0]) != 1:
+                res.append({'error': 'get_op called %d times / ambiguous' % len(picked)})
+                continue
+            # theta_ket and theta_bra: get_theta is called twice with the same arguments
+            if len(calls) != 2 * n or calls[:n] != calls[n:]:
+                res.append({'error': 'unexpected get_B calls %s' % calls})
+                continue
+            res.append({'idx': int(picked[0][0]), 'cell': int(psi._to_valid_site_index(s0, True)[1]),
+                        'reads': [[int(x) for x in psi._to_valid_site_index(i, True)] for i in calls[:n]], 'val': cl(val)})
+        except ValueError as e:
+            res.append({'ValueError': str(e)[:100]})
+    return res
+
+
+def run_sample_ops(case):
+    """sample_measurements(first, last, ops): which operator name is requested from which site in which order (recorded through an
+    instance attribute on copies of the sites; the source is not touched)"""
+    import copy
+    from tenpy.networks.mps import MPS
+    from tenpy.networks.site import SpinHalfSite
+    L = case['L']
+    rec = []
+    sites = []
+    for k in range(L):
+        st = copy.copy(SpinHalfSite(conserve=None))
+        orig = st.get_op
+        st.get_op = (lambda name, _k=k, _o=orig: (rec.append([_k, str(name)]), _o(name))[1])
+        sites.append(st)
+    psi = MPS.from_product_state(sites, ['up', 'down'] * (L // 2) + ['up'] * (L % 2), bc=case['bc'], unit_cell_width=L)
+    res = []
+    for q in case['queries']:
+        del rec[:]
+        r = np.random.default_rng(q['seed'])
+        try:
+            sig, w = psi.sample_measurements(q['first'], q['last'], ops=q['ops'], rng=r, complex_amplitude=q.get('complex_amplitude', True))
+            res.append({'rec': [[k, q['ops'].index(nm)] for k, nm in rec], 'n': len(sig), 'weight': cl([w])})
+        except ValueError as e:
+            res.append({'ValueError': str(e)[:100]})
+    return res
+
+
 def main():
     payload = json.load(open(sys.argv[1]))
-    f = {'state': run_state, 'overlap': run_overlap, 'ops_list': run_ops_list}[payload['kind']]
+    f = {'state': run_state, 'overlap': run_overlap, 'ops_list': run_ops_list, 'window': run_window,
+         'sample_ops': run_sample_ops}[payload['kind']]
     res = []
     for c in payload['cases']:
         try:
